@@ -1,10 +1,11 @@
 package c03lib
 
 import (
-	"bytes"
 	"context"
 	"encoding/json"
 	"fmt"
+	"io"
+	"log"
 	"net/http"
 	"net/http/httptest"
 	"runtime/debug"
@@ -30,9 +31,38 @@ type Config struct {
 	CN     int       `json:"cn"` // LRU capacity (0 otherwise)
 	Sugg   bool      `json:"sugg"`
 	Rules0 []string  `json:"rules0"`
-	HTTP   bool      `json:"http"`
-	QOnly  bool      `json:"qonly,omitempty"` // serve QueryOnlySDL instead of SchemaSDL
+	// Tr is how the requests arrive: "direct" (the driver calls the executor
+	// like a transport does) or over a real connection to a real
+	// handler.Server: post | get | form (multipart/form-data) | sse |
+	// mixed (multipart/mixed) | ws (websocket; graphql-ws and
+	// graphql-transport-ws alternate). "" means direct.
+	Tr    string `json:"tr"`
+	QOnly bool   `json:"qonly,omitempty"` // serve QueryOnlySDL instead of SchemaSDL
+	// Impl, parallel to Exts: "" (instrumented extension), "complexity" or
+	// "apq" (gqlgen's own gate extension, see NewGate); at most one "apq"
+	Impl []string `json:"impl,omitempty"`
 }
+
+// Transports are the values of Config.Tr.
+var Transports = []string{"direct", "post", "get", "form", "sse", "mixed", "ws"}
+
+// Transport is Tr with the default filled in.
+func (c Config) Transport() string {
+	if c.Tr == "" {
+		return "direct"
+	}
+	return c.Tr
+}
+
+func (c Config) impl(i int) string {
+	if i < len(c.Impl) {
+		return c.Impl[i]
+	}
+	return ""
+}
+
+// Remote says whether the requests go over a real connection.
+func (c Config) Remote() bool { return c.Transport() != "direct" }
 
 // Session is a configuration plus a history: steps run one after another,
 // the requests of one step run concurrently.
@@ -51,7 +81,10 @@ type Session struct {
 	LinesS  []string `json:"lines,omitempty"` // Lines, for transport between processes
 	NotRun  string   `json:"not_run,omitempty"`
 	Diverge string   `json:"diverge,omitempty"`
-	Panics  []string `json:"panics,omitempty"` // value + stack of every panic that left gqlgen
+	Panics  []string `json:"panics,omitempty"` // value + stack of every panic that left gqlgen (planned gate panics excluded)
+	// ClientErrs: the harness's transport client could not complete a request
+	// (connection error, unparsable framing, handler did not return)
+	ClientErrs []string `json:"client_errs,omitempty"`
 }
 
 // SchedOp is one cache operation of a schedule.
@@ -70,7 +103,7 @@ func (c Config) ScenarioLine() map[string]any {
 	if r0 == nil {
 		r0 = []string{}
 	}
-	return map[string]any{"e": "Scenario", "id": c.ID, "exts": exts, "ck": c.CK, "cn": c.CN, "sugg": c.Sugg, "rules0": r0, "http": c.HTTP}
+	return map[string]any{"e": "Scenario", "id": c.ID, "exts": exts, "ck": c.CK, "cn": c.CN, "sugg": c.Sugg, "rules0": r0, "tr": c.Transport()}
 }
 
 func newInnerCache(c Config) graphql.Cache[*ast.QueryDocument] {
@@ -94,19 +127,26 @@ func queryOnlyES() *ES {
 }
 
 type server struct {
+	cfg     Config
 	ex      *executor.Executor
-	srv     http.Handler
-	reg     sync.Map // request id -> *ReqInfo (HTTP mode)
+	ts      *httptest.Server // real transports
+	client  *http.Client
+	reg     sync.Map // request id -> *ReqInfo (real transports)
 	onPanic func(string)
 }
 
 func newServer(es graphql.ExecutableSchema, c Config, cache *Cache) *server {
-	s := &server{}
-	if c.HTTP {
+	s := &server{cfg: c}
+	if c.Remote() {
 		h := handler.New(es)
+		h.AddTransport(transport.Websocket{})
+		h.AddTransport(transport.SSE{})
+		h.AddTransport(transport.MultipartMixed{})
+		h.AddTransport(transport.GET{})
 		h.AddTransport(transport.POST{})
+		h.AddTransport(transport.MultipartForm{})
 		for i, hs := range c.Exts {
-			h.Use(NewExt(i+1, hs))
+			h.Use(NewGate(i+1, hs, c.impl(i)))
 		}
 		h.SetQueryCache(cache)
 		h.SetDisableSuggestion(c.Sugg)
@@ -115,29 +155,50 @@ func newServer(es graphql.ExecutableSchema, c Config, cache *Cache) *server {
 		h.SetRecoverFunc(func(ctx context.Context, err any) error {
 			ri := info(ctx)
 			ri.T.Log(ri.ID, "recover", "call", 0, "")
-			if s.onPanic != nil {
+			if s.onPanic != nil && !IsGatePanic(err) {
 				s.onPanic(fmt.Sprintf("request %d: panic: %v\n%s", ri.ID, err, debug.Stack()))
 			}
 			return gqlerror.Errorf("internal system error")
 		})
-		s.srv = http.HandlerFunc(func(w http.ResponseWriter, r *http.Request) {
+		s.ts = httptest.NewUnstartedServer(http.HandlerFunc(func(w http.ResponseWriter, r *http.Request) {
 			id, _ := strconv.Atoi(r.Header.Get("X-C03-Req"))
 			v, ok := s.reg.Load(id)
 			if !ok {
 				panic("c03lib: unknown request id")
 			}
-			h.ServeHTTP(w, r.WithContext(WithInfo(r.Context(), v.(*ReqInfo))))
-		})
+			e := v.(*regEntry)
+			// the client waits for the handler to return: everything the server
+			// does for this request is in the trace before the request counts as over
+			defer close(e.served)
+			h.ServeHTTP(w, r.WithContext(WithInfo(r.Context(), e.ri)))
+		}))
+		// net/http reports "superfluous WriteHeader" / "hijacked connection" when
+		// ServeHTTP's recover answers on a flushed or hijacked connection
+		s.ts.Config.ErrorLog = log.New(io.Discard, "", 0)
+		s.ts.Start()
+		s.client = &http.Client{Transport: &http.Transport{MaxIdleConnsPerHost: 8, DisableCompression: true}, Timeout: 30 * time.Second}
 		return s
 	}
 	ex := executor.New(es)
 	for i, hs := range c.Exts {
-		ex.Use(NewExt(i+1, hs))
+		ex.Use(NewGate(i+1, hs, c.impl(i)))
 	}
 	ex.SetQueryCache(cache)
 	ex.SetDisableSuggestion(c.Sugg)
 	s.ex = ex
 	return s
+}
+
+func (s *server) close() {
+	if s.ts != nil {
+		s.client.CloseIdleConnections()
+		s.ts.Close()
+	}
+}
+
+type regEntry struct {
+	ri     *ReqInfo
+	served chan struct{}
 }
 
 func respKind(resp *graphql.Response) string {
@@ -162,6 +223,7 @@ func respKind(resp *graphql.Response) string {
 func (s *server) runDirect(ri *ReqInfo, q *Request) {
 	ctx := WithInfo(graphql.StartOperationTrace(context.Background()), ri)
 	params := &graphql.RawParams{Query: q.Query, OperationName: q.OpName, Variables: q.Vars}
+	params.Query, params.Extensions = ApqParams(q, s.cfg.Exts, s.cfg.Impl)
 	rc, opErr := s.ex.CreateOperationContext(ctx, params)
 	if opErr != nil {
 		resp := s.ex.DispatchError(graphql.WithOperationContext(ctx, rc), opErr)
@@ -184,37 +246,6 @@ func (s *server) runDirect(ri *ReqInfo, q *Request) {
 			break
 		}
 	}
-}
-
-func (s *server) runHTTP(ri *ReqInfo, q *Request) {
-	s.reg.Store(ri.ID, ri)
-	defer s.reg.Delete(ri.ID)
-	body, _ := json.Marshal(map[string]any{"query": q.Query, "operationName": q.OpName, "variables": q.Vars})
-	req := httptest.NewRequest("POST", "/query", bytes.NewReader(body))
-	req.Header.Set("Content-Type", "application/json")
-	req.Header.Set("X-C03-Req", strconv.Itoa(ri.ID))
-	w := httptest.NewRecorder()
-	s.srv.ServeHTTP(w, req)
-	var out struct {
-		Data   json.RawMessage   `json:"data"`
-		Errors []json.RawMessage `json:"errors"`
-	}
-	k := "undecodable"
-	if err := json.Unmarshal(w.Body.Bytes(), &out); err == nil {
-		hasData := len(out.Data) > 0 && string(out.Data) != "null"
-		switch {
-		case len(out.Errors) > 0 && !hasData:
-			k = "errors"
-		case len(out.Errors) > 0:
-			k = "mixed"
-		case hasData:
-			k = "data"
-		default:
-			k = "empty"
-		}
-	}
-	ri.T.Log(ri.ID, "resp", k, 0, "")
-	q.Resps = append(q.Resps, k)
 }
 
 // Run executes the session against the real executor / handler and fills
@@ -242,8 +273,8 @@ func (s *Session) Run(es *ES) {
 			n++
 			q.R = n
 			q.Q = qid(q.Query)
-			q.Describe(es.schema, s.Cfg.HTTP)
-			q.Resps = nil
+			q.Describe(es.schema, s.Cfg.Transport())
+			q.Resps, q.Status = nil, nil
 		}
 	}
 	cache := NewCache(newInnerCache(s.Cfg))
@@ -257,7 +288,8 @@ func (s *Session) Run(es *ES) {
 		cache.Gate = sch.gate
 	}
 	srv := newServer(es, s.Cfg, cache)
-	s.Panics = nil
+	defer srv.close()
+	s.Panics, s.ClientErrs = nil, nil
 	srv.onPanic = func(text string) {
 		qmu.Lock()
 		s.Panics = append(s.Panics, text)
@@ -274,7 +306,7 @@ func (s *Session) Run(es *ES) {
 			wg.Add(1)
 			go func(q *Request) {
 				defer wg.Done()
-				ri := &ReqInfo{ID: q.R, Rej: q.Rej, T: t, QID: qid}
+				ri := &ReqInfo{ID: q.R, Gates: q.Gates, T: t, QID: qid}
 				defer func() {
 					// the executor itself does not recover (the transports leave that
 					// to Server.ServeHTTP): in direct mode the driver is the transport
@@ -282,13 +314,19 @@ func (s *Session) Run(es *ES) {
 						t.Log(q.R, "recover", "call", 0, "")
 						t.Log(q.R, "resp", "panic", 0, "")
 						q.Resps = append(q.Resps, "panic")
-						srv.onPanic(fmt.Sprintf("request %d: panic: %v\n%s", q.R, p, debug.Stack()))
+						if !IsGatePanic(p) || s.Cfg.Remote() {
+							srv.onPanic(fmt.Sprintf("request %d: panic: %v\n%s", q.R, p, debug.Stack()))
+						}
 					}
 				}()
 				<-start
 				t.Raw(q.ReqLine())
-				if s.Cfg.HTTP {
-					srv.runHTTP(ri, q)
+				if s.Cfg.Remote() {
+					if err := srv.runRemote(ri, q, s.Cfg.Transport()); err != nil {
+						qmu.Lock()
+						s.ClientErrs = append(s.ClientErrs, fmt.Sprintf("request %d over %s: %v", q.R, s.Cfg.Transport(), err))
+						qmu.Unlock()
+					}
 				} else {
 					srv.runDirect(ri, q)
 				}
